@@ -290,7 +290,13 @@ def flat_case(case):
     det = dict(base_detail, argv=both_argv, stdin=T)
     if _proc_ok(res, v, "idem-fail", r, "F->F pass failed on Miller's own output", det, "+".join(sorted(cls))):
         T_first = T
-        if v.idem2 and r.stdout != T:
+        tainted = False
+        if v.idem2 and r.stdout != T and v.pyread is not None:
+            try:
+                tainted = v.pyread(T) != v.pyread(r.stdout)   # the first pass already changed cells: reported below as usual
+            except C.CodecError:
+                tainted = True
+        if v.idem2 and r.stdout != T and not tainted:
             # layout depends on inferred types (numeric right-alignment) and T was written from JSON
             # strings: the fixed point must be reached after one pass over format-F input
             T = r.stdout
@@ -299,7 +305,12 @@ def flat_case(case):
             det = dict(base_detail, argv=both_argv, stdin=T)
             if not _proc_ok(res, v, "idem-fail", r, "F->F pass failed on Miller's own output", det, "+".join(sorted(cls))):
                 return res
-        if r.stdout != T:
+        if r.stdout != T and v.fmt == "markdown" and re.search(rb" :?-+: \|", T):
+            # the writer's own right-alignment rule ('---:') is not recognised by the reader: everything after it shifts
+            report_diffs(res, v, "idempotence", [{"where": "structure", "delta": "rule-line-read-as-record", "cls": "", "exp": _short(T, 300),
+                                                  "got": _short(r.stdout, 300), "at": None}],
+                         "mlr --md --right-align-numeric cat is not idempotent on its own output", det)
+        elif r.stdout != T:
             diffs = None
             if v.pyread is not None:
                 try:
@@ -468,8 +479,8 @@ def quoteall(v):
 
 def _num_eq(a, b):
     try:
-        if re.fullmatch(r"-?\d+", a) and re.fullmatch(r"-?\d+", b):
-            return int(a) == int(b)
+        if re.fullmatch(r"-?\d+", a) and re.fullmatch(r"-?\d+", b) and all(-2 ** 63 <= int(x) < 2 ** 63 for x in (a, b)):
+            return int(a) == int(b)      # (integers outside int64 are floats to Miller: compared as doubles below)
         return float(a) == float(b)
     except ValueError:
         return False
@@ -492,17 +503,15 @@ def jdiff(e, g, path, out, numeric=False, sort_keys=False, limit=8):
                     jdiff(x, gd[k], path + [k], out, numeric, sort_keys, limit)
                 return
             miss, extra = [k for k in ek if k not in gk], [k for k in gk if k not in ek]
-            if len(miss) == 1 and len(extra) == 1 and len(ek) == len(gk):
-                ab, bb = miss[0].encode("utf-8", "surrogatepass"), extra[0].encode("utf-8", "surrogatepass")
-                out.append(("key", delta(ab, bb), "+".join(sorted(F.classes_of(ab))), miss[0], extra[0], path))
-            elif len(ek) == len(gk):
-                for a, b in zip(ek, gk):
-                    if a != b:
-                        ab, bb = a.encode("utf-8", "surrogatepass"), b.encode("utf-8", "surrogatepass")
-                        out.append(("key", delta(ab, bb), "+".join(sorted(F.classes_of(ab))), a, b, path))
-                        break
+            if miss and len(miss) == len(extra):
+                for a_, b_ in list(zip(miss, extra))[:2]:
+                    ab, bb = a_.encode("utf-8", "surrogatepass"), b_.encode("utf-8", "surrogatepass")
+                    out.append(("key", delta(ab, bb), "+".join(sorted(F.classes_of(ab) | ({"merge-key"} if a_ == "<<" else set()))), a_, b_, path))
+            elif miss or extra:
+                out.append(("structure", "key-list", "merge-key" if "<<" in miss else "+".join(sorted(set().union(*[F.classes_of(k.encode("utf-8", "surrogatepass")) for k in miss]))) if miss else "",
+                            ek[:8], gk[:8], path))
             else:
-                out.append(("structure", "key-list", "", ek[:8], gk[:8], path))
+                out.append(("key-order", "other-order", "", ek[:8], gk[:8], path))
             return
         for (k, x), (_, y) in zip(e, g):
             jdiff(x, y, path + [k], out, numeric, sort_keys, limit)
